@@ -8,6 +8,7 @@ import (
 	"flag"
 	"fmt"
 	"github.com/nyaruka/goflow/contactql"
+	"hash/crc32"
 	"math/rand"
 	"reflect"
 	"sort"
@@ -228,7 +229,10 @@ func contactAssets(extra ...string) []byte {
 	return mustJSON(M{
 		"channels": []M{
 			{"uuid": chanA, "name": "A", "address": "+17036975131", "schemes": []string{"tel"}, "roles": []string{"send", "receive"}, "country": "US"},
-			{"uuid": chanR, "name": "R", "address": "+17036975132", "schemes": []string{"tel"}, "roles": []string{"receive"}, "country": "US"}},
+			{"uuid": chanR, "name": "R", "address": "+17036975132", "schemes": []string{"tel"}, "roles": []string{"receive"}, "country": "US"},
+			// a second channel that can send to the same numbers: which one a message goes out on is looked up per message
+			// (and is nobody's business but the message's - the contact's URNs keep the affinity they have)
+			{"uuid": "0f661e8b-ea9d-4bd3-9953-d368340acf92", "name": "S2", "address": "+12065550100", "schemes": []string{"tel"}, "roles": []string{"send"}, "country": "US"}},
 		"fields": []M{{"uuid": "f1b5aea6-6586-41c7-9020-1a6326cc6565", "key": "f1", "name": "F1", "type": "text"},
 			{"uuid": "f1b5aea6-6586-41c7-9020-1a6326cc6566", "key": "vc", "name": "Vc", "type": "number"}},
 		"groups": gs,
@@ -788,10 +792,13 @@ func c03Sprints(args []string) error {
 		}
 		src := fmt.Sprintf("%s#%d", *in, i)
 		resetGenerators(1)
+		// a message before and after the change: destinations are resolved against the contact's URNs, nothing more
+		acts = append(append([]M{{"uuid": actionUUID(1, 1, 8), "type": "send_msg", "text": "before @contact.urn", "all_urns": true}}, acts...),
+			M{"uuid": actionUUID(1, 1, 9), "type": "send_msg", "text": "after @(format_urn(contact.urn))"})
 		node1 := M{"uuid": nodeUUID(1, 1), "actions": acts, "exits": exitsFor(1, 1, 2)}
 		node2 := M{"uuid": nodeUUID(1, 2), "actions": []M{}, "exits": exitsFor(1, 2, 3, 3)}
 		r := switchRouter(1, 2, "@input.text", true, false)
-		r["wait"] = M{"type": "msg"}
+		r["wait"] = M{"type": "msg", "timeout": M{"seconds": 60, "category_uuid": catUUID(1, 2, 1)}}
 		node2["router"] = r
 		node3 := M{"uuid": nodeUUID(1, 3), "actions": actionsFor(&cs.Mod, 1, 3), "exits": exitsFor(1, 3, 0)}
 		base["flows"] = []M{{"uuid": flowUUID(1), "name": "Flow 1", "spec_version": "13.6.0", "language": "eng", "type": "messaging", "nodes": []M{node1, node2, node3}}}
@@ -842,8 +849,30 @@ func c03Sprints(args []string) error {
 				if pan != "" || s.Status() != flows.SessionStatusWaiting {
 					return
 				}
-				res, err := readResume(sa, resumeJSON("msg", "e1", 1))
+				// the resume: a message as it is, or - every kind of resume - one that brings the contact as the host now
+				// knows it: other attributes, the group list still the old one (query groups have to be re-evaluated)
+				var rm M
+				variant := int(crc32.ChecksumIEEE([]byte(fmt.Sprint(cs.Before.Name, cs.Before.Lang, cs.Before.F1, cs.Before.Status, cs.Before.TZ, len(cs.Before.URNs), cs.Before.Groups, cs.Mod.Type, cs.Mod.V, cs.Mod.How))) % 4) // (a function of the case, not of its position: confirming runs see one case)
+				json.Unmarshal(resumeJSON([]string{"msg", "msg", "timeout", "expiration"}[variant], "e1", 1), &rm)
+				if variant != 0 {
+					a2 := cs.Before
+					a2.Name = map[string]string{"bob": "jim"}[strings.ToLower(a2.Name)]
+					if a2.Name == "" {
+						a2.Name = "Bob"
+					}
+					a2.Lang = map[string]string{"fra": "eng", "eng": "fra", "": "fra"}[a2.Lang]
+					if a2.F1 == "" {
+						a2.F1 = "zz"
+					} else {
+						a2.F1 = ""
+					}
+					var c2 M
+					json.Unmarshal(concreteContact(&a2), &c2)
+					rm["contact"] = c2
+				}
+				res, err := readResume(sa, mustJSON(rm))
 				if err != nil {
+					errs = append(errs, src+": "+err.Error())
 					return
 				}
 				before = projContact(s.Contact())
